@@ -1180,6 +1180,8 @@ func (db *DB) SizeOf(ranges []util.Range) (Sizes, error) {
 // It is valid to call Close multiple times. Other methods should not be
 // called after the DB has been closed.
 func (db *DB) Close() error {
+	defer verifEvent(221, 8, 0)
+	verifEvent(220, 8, 0)
 	if !db.setClosed() {
 		return ErrClosed
 	}
@@ -1201,6 +1203,7 @@ func (db *DB) Close() error {
 	}
 
 	// Signal all goroutines.
+	verifEvent(230, 8, 0)
 	close(db.closeC)
 
 	// Discard open transaction.
@@ -1210,9 +1213,11 @@ func (db *DB) Close() error {
 
 	// Acquire writer lock.
 	db.writeLockC <- struct{}{}
+	verifEvent(200, 8, 0)
 
 	// Wait for all gorotines to exit.
 	db.closeW.Wait()
+	verifEvent(231, 8, 0)
 
 	// Closes journal.
 	if db.journal != nil {
